@@ -5,6 +5,7 @@ import os
 
 from harness import common, trees, treeimpl
 from harness.common import cps, uncps
+from harness import updimpl
 from harness.props.c15 import FakeOS
 
 BRIDGE = ('Gemato.Bridge.Tree', 'Gemato.Bridge.SrcWalk', 'Gemato.Bridge.SrcUpdate', 'Gemato.Bridge.SrcVerify')
@@ -113,7 +114,7 @@ def oracle(root, start, ignored, dev_of=None, want_dev=None):
     return found
 
 
-def run_impl(root, op, path, handler, xdev=True, fos=None):
+def run_impl(root, op, path, handler, xdev=True, fos=None, last_mtime=None):
     import gemato.recursiveloader as rl
     import gemato.verify as gv
     from gemato.recursiveloader import ManifestRecursiveLoader
@@ -126,13 +127,15 @@ def run_impl(root, op, path, handler, xdev=True, fos=None):
             l = ManifestRecursiveLoader(os.path.join(root, 'Manifest'), hashes=['SHA1'], allow_xdev=xdev)
             if op == 'verify':
                 kw = {} if handler is None else {'fail_handler': handler}
+                if last_mtime is not None:
+                    kw['last_mtime'] = last_mtime
                 r = l.assert_directory_verifies(path, **kw)
                 return {'ret': bool(r)}
             if op == 'scan':
                 l.load_unregistered_manifests(path)
                 return {'ret': True}
             if op == 'update':
-                l.update_entries_for_directory(path)
+                l.update_entries_for_directory(path, **({} if last_mtime is None else {'last_mtime': last_mtime}))
                 return {'ret': True}
     except Exception as e:
         return treeimpl.classify(e)
@@ -210,6 +213,27 @@ def one(ctx, drv):
                     ctx.fail('boundary-crossing-not-reported', scen, json.dumps(impl)[:200])
                 elif 'xdev' not in probs and impl.get('err') == 'crossdev':
                     ctx.fail('boundary-crossing-reported-wrongly', scen, '')
+        # one-file-system mode, a single listed FILE on another file system (a file-level symlink or bind mount), in a plain and
+        # in an incremental run where the file looks unchanged: the boundary must be reported before any shortcut applies
+        if consistent and not links and rng.random() < 0.7:
+            import gemato.manifest as gm
+            m = updimpl.read_manifest(os.path.join(root, 'Manifest'))
+            listed = [e.path for e in m.entries if e.tag == 'DATA']
+            if listed:
+                victim = rng.choice(listed)
+                real_v = os.path.realpath(os.path.join(root, victim))
+                base_dev = os.stat(root).st_dev
+                fos = FakeOS([(real_v, base_dev + 9)])
+                mt = os.stat(real_v).st_mtime
+                for op in ('verify', 'update'):
+                    for lm in (None, mt + 100):
+                        h = treeimpl.Recorder(default=True) if op == 'verify' else None
+                        impl = run_impl(root, op, '', h, xdev=False, fos=fos, last_mtime=lm)
+                        scen = {'op': op + '-one-file-system-file', 'victim': victim, 'last_mtime': lm, 'dirs': dirs}
+                        ctx.count('op:' + scen['op'] + ('/incremental' if lm is not None else ''))
+                        ctx.case(scen, True, dict(scen, impl=impl))
+                        if impl.get('err') != 'crossdev':
+                            ctx.fail('boundary-crossing-not-reported', scen, json.dumps(impl)[:200])
     finally:
         trees.rmtree(root)
 
